@@ -697,3 +697,10 @@ func lastN(s []string, n int) []string {
 	}
 	return s
 }
+
+// ResetPackageState forgets the values of all package-level variables (they are re-initialised on next use), as in a
+// fresh process.
+func (c *Ctx) ResetPackageState() {
+	c.globals = map[*ssa.Global]*Value{}
+	c.inited = map[*ssa.Package]bool{}
+}
